@@ -145,7 +145,7 @@ def account_writers(P, R):
                 return st
 
             def on_event(st, t):
-                if t.ev['k'] == 'store' and is_var(t.ev.get('lhs')) and t.ev['lhs'].get('t', '').startswith('struct iauth_xquery_service'):
+                if t.ev['k'] == 'store' and is_var(t.ev.get('lhs')) and t.ev['lhs'].get('t', '').replace('const ', '').startswith('struct iauth_xquery_service'):
                     return 'unknown'
                 return st
             before, _, sin, bout = f.forward('unknown', on_event, on_edge)
